@@ -1104,15 +1104,6 @@ package ion
 // ---------------------------------------------------------------------------
 // symboltable.go: local symbol tables and the builder
 
-//@ func processImports
-//@ invariant loop0 [idx_ int, offsets []uint64, imps []SharedSymbolTable] idx_ >= -1 && idx_ < len(imps) && len(offsets) == len(imps) && len(imps) >= 1 && (idx_ >= 0 ==> offsets[0] == 0)
-//@ modifies nothing
-//@ ensures[C09] len(result0) >= 1 && len(result1) == len(result0) && result1[0] == 0
-//@ ensures[C09] len(imports) > 0 && imports[0] != nil && imports[0].Name() == "$ion" ==> len(result0) == len(imports)
-//@ ensures[C09] !(len(imports) > 0 && imports[0] != nil && imports[0].Name() == "$ion") ==> len(result0) == len(imports)+1 && result0[0] == V1SystemSymbolTable
-//@ ensures[C09] vcFresh(result0) && vcFresh(result1)
-//@ safe[C06]
-
 //@ func (*lst).FindByID
 //@ requires lstWF(t)
 //@ modifies nothing
